@@ -115,3 +115,86 @@ def k_cosmo(src: Path, parse) -> str:
         "with `parse_cosmology`, handing the parsed cosmology to the binning -/",
         f"def configUsesCosmologyHelpers : Bool := {'true' if (init_ok and eq_ok and io_ok) else 'false'}",
         ""])
+
+
+def k_tree(src: Path, parse) -> str:
+    """catalog/trees.py: parse_ang_limits (validation of the angular limits) and AngularTree.__init__ / empty / count glue (C01, C13)"""
+    tt = parse(src, "yaw/catalog/trees.py")
+    body = _strip_doc(find_function(tt, "parse_ang_limits").body)
+    txt = [ast.unparse(x) for x in body]
+    if not (len(body) == 8 and txt[0] == "ang_min = np.atleast_1d(ang_min).astype(np.float64)"
+            and txt[1] == "ang_max = np.atleast_1d(ang_max).astype(np.float64)"
+            and txt[2].startswith("if ang_min.ndim != 1 or ang_max.ndim != 1:\n    raise ValueError(")
+            and txt[5] == "ang_range = np.column_stack((ang_min, ang_max))" and txt[7] == "return ang_range"):
+        raise Untranslatable("parse_ang_limits", "statement structure changed")
+    OPS = {ast.Lt: "<", ast.LtE: "≤", ast.Gt: ">", ast.GtE: "≥", ast.Eq: "=", ast.NotEq: "≠"}
+
+    def raise_if(st):
+        if not (isinstance(st, ast.If) and not st.orelse and len(st.body) == 1 and isinstance(st.body[0], ast.Raise)):
+            raise Untranslatable("parse_ang_limits", f"not a guard: {ast.unparse(st)[:60]}")
+        return st.test
+
+    def any_cmp(n, names):
+        """np.any(<a> <op> <b>) with a, b in `names` (Lean element expressions) or constants"""
+        if not (isinstance(n, ast.Call) and ast.unparse(n.func) == "np.any" and len(n.args) == 1 and isinstance(n.args[0], ast.Compare)
+                and len(n.args[0].ops) == 1 and type(n.args[0].ops[0]) in OPS):
+            raise Untranslatable("parse_ang_limits", f"condition form: {ast.unparse(n)[:60]}")
+        c = n.args[0]
+
+        def side(x):
+            t = ast.unparse(x)
+            if t in names:
+                return names[t]
+            if t == "np.pi":
+                return "pi"
+            if isinstance(x, ast.Constant) and isinstance(x.value, (int, float)) and float(x.value) == int(x.value):
+                return f"({int(x.value)} : Rat)"
+            raise Untranslatable("parse_ang_limits", f"operand: {t}")
+        return side(c.left), OPS[type(c.ops[0])], side(c.comparators[0])
+    if ast.unparse(raise_if(body[3])) != "len(ang_min) != len(ang_max)":
+        raise Untranslatable("parse_ang_limits", "length test changed")
+    l, op, r = any_cmp(raise_if(body[4]), {"ang_min": "p.1", "ang_max": "p.2"})
+    order = f"(mins.zip maxs).any (fun p => decide ({l} {op} {r}))"
+    tr = raise_if(body[6])
+    if not (isinstance(tr, ast.BoolOp) and isinstance(tr.op, ast.Or) and len(tr.values) == 2):
+        raise Untranslatable("parse_ang_limits", "range guard form")
+    parts = []
+    for v in tr.values:
+        a_, o_, b_ = any_cmp(v, {"ang_range": "x"})
+        parts.append(f"(mins ++ maxs).any (fun x => decide ({a_} {o_} {b_}))")
+    rng = " || ".join(parts)
+    # ---- AngularTree ---------------------------------------------------------------------------------------------
+    ini = [ast.unparse(x) for x in _strip_doc(find_function(tt, "AngularTree.__init__").body)]
+    init_ok = ini == [
+        "self.num_records = len(coords)",
+        "if weights is None:\n    self.weights = None\n    self.sum_weights = float(self.num_records)\n"
+        "elif len(weights) != self.num_records:\n    raise ValueError(\"shape of 'coords' and 'weights' does not match\")\n"
+        "else:\n    self.weights = np.asarray(weights).astype(np.float64, copy=False)\n    self.sum_weights = float(self.weights.sum())",
+        "self.tree = KDTree(coords.to_3d(), leafsize=leafsize, copy_data=True)"]
+    emp = [ast.unparse(x) for x in _strip_doc(find_function(tt, "AngularTree.empty").body)]
+    empty_ok = emp == ["new = cls.__new__(cls)", "new.num_records = 0", "new.weights = np.empty(0) if has_weights else None",
+                       "new.sum_weights = 0.0", "new.tree = None", "return new"]
+    cnt = find_function(tt, "AngularTree.count")
+    calls = [n for n in ast.walk(cnt) if isinstance(n, ast.Call) and ast.unparse(n.func) == "self.tree.count_neighbors"]
+    count_ok = False
+    if len(calls) == 1:
+        c = calls[0]
+        kw = {k.arg: ast.unparse(k.value) for k in c.keywords}
+        count_ok = ([ast.unparse(a) for a in c.args] == ["other.tree"] and kw.get("weights") == "(self.weights, other.weights)"
+                    and kw.get("r") == "AngularDistances(ang_bins).to_3d()" and kw.get("cumulative") == "cumulative")
+    ctxt = [ast.unparse(x) for x in _strip_doc(cnt.body)]
+    empty_zero = "if self.tree is None or other.tree is None:\n    return np.zeros(len(ang_limits))" in ctxt
+    first = ctxt[0] == "ang_limits = parse_ang_limits(ang_min, ang_max)"
+    return "\n".join([
+        "/-- `parse_ang_limits` raises for these lower / upper limits (`pi` = the float π as a rational) -/",
+        "def angLimitsRaises (mins maxs : List Rat) (pi : Rat) : Bool :=",
+        f"  (mins.length != maxs.length) || ({order}) || ({rng})",
+        "/-- `AngularTree.__init__`: num_records = len(coords); no weights -> sum_weights = num_records; weights of another length "
+        "raise; weights are stored in the given order and summed; the KD-tree is built from `coords.to_3d()` in the same order -/",
+        f"def treeInitAsModelled : Bool := {'true' if init_ok else 'false'}",
+        "/-- `AngularTree.empty`: no records, zero weight sum, no tree -/",
+        f"def treeEmptyAsModelled : Bool := {'true' if empty_ok else 'false'}",
+        "/-- `AngularTree.count`: limits validated first; zeros when either tree is empty; `count_neighbors(other.tree, weights=(self.weights, "
+        "other.weights))` — the weights are passed in the order of the trees -/",
+        f"def treeCountAligned : Bool := {'true' if (count_ok and empty_zero and first) else 'false'}",
+        ""])
